@@ -2,6 +2,7 @@
 import os, json, random, collections, time, itertools
 from lib import common
 from drivers import transports as T
+import pexpect
 
 PTY_SCRIPTS = ['W', 'WW', 'WE', 'WWE', 'E', 'WCE', 'CE', 'WC', 'WWCW', 'WCWE', 'WWWE', 'C']
 PAYLOADS = [b'abc', b'x', b'0123456789' * 4, b'\r\n\xff\x00', b'']
@@ -189,6 +190,42 @@ def stage_popen(ctx, stats, sigs):
                 [(a[0], len(a[1]) if len(a) > 1 else 0) for a in script], sizes[:3], msg), dict(script=letters, size=size, thread_overtakes_after_empty_queue=adv))
             break
     stats['popen_runs'] = n
+    # a fault on the pipe (os.read in the reader thread fails once, after the first chunk): whatever the transport makes of it, nothing the
+    # child wrote is delivered twice and the reader is not left waiting for ever
+    import pexpect.popen_spawn as PO
+    import errno as _errno
+
+    class FaultyOs(object):
+        def __init__(self):
+            self.n = 0
+
+        def read(self, fd, k):
+            self.n += 1
+            if self.n == 2:
+                raise OSError(_errno.EIO, 'injected read fault')
+            return os.read(fd, k)
+
+        def __getattr__(self, name):
+            return getattr(os, name)
+    saved_os = PO.os
+    PO.os = FaultyOs()
+    try:
+        p = PO.PopenSpawn([common.PY, '-c', 'import sys,time; sys.stdout.write("only-chunk\\n"); sys.stdout.flush(); time.sleep(0.3)'], timeout=5)
+        got, t0, ended = b'', time.time(), False
+        while time.time() - t0 < 5:
+            try:
+                got += p.read_nonblocking(100, 0.05)
+            except pexpect.EOF:
+                ended = True; break
+            except Exception as e:      # noqa
+                got += b'<%s>' % type(e).__name__.encode(); break
+        p.proc.wait(); p.proc.stdout.close()
+    finally:
+        PO.os = saved_os
+    sigs.add(('popen-fault', ended))
+    if not b'only-chunk\n'.startswith(got) or not ended:
+        common.report(ctx, 'popen/read-fault', 'popen transport, read fault after the first chunk: the child wrote b"only-chunk\\n", delivered %r, EOF reported: %s' % (got, ended),
+                      dict(script='one chunk, then os.read raises EIO once in the reader thread'))
 
 
 def stage_volume(ctx, stats, sigs):
